@@ -456,7 +456,7 @@ const char *StatusName(uint32_t s, int sig)
       enabled |= static_cast<uint16_t>(1U << id);
     }
     if (all_done) { status = kOk; break; }
-    if (enabled == 0 && grace < 2) {
+    if (enabled == 0 && grace < 3) {
       // before declaring the run stuck, let every blocked thread run on with much higher spin limits: a bounded
       // retry loop that gives up on its own (no state change needed) is not a deadlock
       ++grace;
